@@ -965,6 +965,12 @@ def gen_weight_case(r, dyadic=False):
     else:
         P = correlated_stack(g, K, h * w, r.choice([0.0, 0.5, 0.99])).reshape(K, h, w)
         P = P * (10 ** g.uniform(-3, 3) * g.uniform(0.2, 2, K))[:, None, None]
+        # 30 %: modes of very different strength (a perturbation-sized mode next to the main one:
+        # amplitude ratio 1e-3 ... 1e-6, i.e. an energy fraction down to 1e-12) with an ordinary request
+        if K >= 2 and r.random() < 0.3:
+            for i in r.sample(range(K), r.randint(1, K - 1)):
+                P[i] *= 10 ** -g.uniform(3, 6)
+            case["disparate_modes"] = True
     P = P.astype(np.complex64)
     case["re"] = [float(x) for x in P.real.ravel()]
     case["im"] = [float(x) for x in P.imag.ravel()]
@@ -1357,6 +1363,8 @@ def check_weights(ctx: Ctx):
         ctx.dist("weights/requested=%s" % ("default" if case["weights"] is None else "given"))
         if case.get("weights_edge"):
             ctx.dist("weights/edge=%s" % case["weights_edge"])
+        if case.get("disparate_modes"):
+            ctx.dist("weights/mode-strengths=disparate(1e-3..1e-6)")
         ctx.count(("w", json.dumps(case, sort_keys=True)), nontrivial=case["K"] > 1)
         for key, what in bad:
             nbad += 1
